@@ -114,17 +114,27 @@ Field0(line) ==
 Field(line) == Force(Field0, line)
 
 \* ---------- whole head (bytes before the first CRLFCRLF) ----------
-RefLines(lines) ==
-  LET bareLF == \E k \in 1..Len(lines) : Has(lines[k], LF)
-      rl == ReqLine(lines[1])
+AllErrs == {"MalformedRequestLine", "MalformedPath", "UnsupportedProtocol", "MalformedHeader"}
+RefLines0(lines) ==
+  LET rl == ReqLine(lines[1])
       fs == [k \in 1..(Len(lines) - 1) |-> Field(lines[k+1])]
-      anyFree == bareLF \/ rl.free \/ (\E k \in 1..Len(fs) : fs[k].cls = "free")
+      anyFree == rl.free \/ (\E k \in 1..Len(fs) : fs[k].cls = "free")
       fieldReject == \E k \in 1..Len(fs) : fs[k].cls = "reject"
       errs == (IF rl.ok THEN {} ELSE rl.errs) \cup (IF fieldReject THEN {"MalformedHeader"} ELSE {})
-  IN IF anyFree THEN [class |-> "free", errs |-> errs \cup {"MalformedRequestLine", "MalformedPath", "UnsupportedProtocol", "MalformedHeader"},
-                      faith |-> rl.faith]
+  IN IF anyFree THEN [class |-> "free", errs |-> errs \cup AllErrs, faith |-> rl.faith, lf |-> [on |-> FALSE]]
      ELSE IF errs # {} THEN [class |-> "reject", errs |-> errs]
      ELSE [class |-> "accept", errs |-> {}, method |-> rl.method, path |-> rl.path, hasQuery |-> rl.hasQuery, query |-> rl.query,
            fields |-> [k \in 1..Len(fs) |-> <<fs[k].name, fs[k].value>>]]
+\* A bare LF inside a line: RFC 7230 section 3.5 lets a recipient take it for a line end, and the library is pinned to doing
+\* so.  Refusing such a head is as good; but if it is accepted it must be the head that results from taking every bare LF
+\* for a line end -- nothing repaired beyond that, and nothing accepted that would be rejected with CR LF in its place.
+RECURSIVE FlattenLF(_)
+FlattenLF(lines) == IF lines = <<>> THEN <<>> ELSE Split(lines[1], LF) \o FlattenLF(Tail(lines))
+RefLines(lines) ==
+  IF \E k \in 1..Len(lines) : Has(lines[k], LF)
+  THEN LET r == RefLines0(FlattenLF(lines)) IN
+       IF r.class = "free" THEN r
+       ELSE [class |-> "free", errs |-> AllErrs, faith |-> [on |-> FALSE], lf |-> [on |-> TRUE, ref |-> r]]
+  ELSE RefLines0(lines)
 RefParse(head) == Force(RefLines, SplitCRLF(head))
 ====
